@@ -87,4 +87,27 @@ inductive PubKey
   | other
 deriving DecidableEq, Repr
 
+/-! ### cmd/keymasterd `checkAuth`: the session-cookie tail -/
+
+/-- `authInfo` (cmd/keymasterd/app.go): what a verified credential establishes; the two time stamps are opaque here
+(their only use in the translated code is the external `expired`) -/
+structure authInfo where
+  Username : Str
+  AuthType : Nat
+  ExpiresAt : Nat
+  IssuedAt : Nat
+deriving DecidableEq, Repr
+
+/-- what a handler writes: `writeFailureResponse(w, r, status, …)` -/
+inductive HttpEffect
+  | fail (status : Nat)
+deriving DecidableEq, Repr
+
+/-- externals of the cookie tail: `getAuthInfoFromAuthJWT` (signature, kind, issuer, audience, nbf — property C04) and
+`info.ExpiresAt.Before(time.Now())` -/
+structure CookieExt where
+  getAuthInfo : Str → authInfo × Option Err
+  expired : authInfo → Bool
+  unit : Nat → Unit := fun _ => ()
+
 end KM.GoTypes
